@@ -1,4 +1,5 @@
 import Prom.Lemmas.GatherDet
+import Prom.Props.C06
 
 namespace Prom.C07
 open Prom
@@ -209,5 +210,46 @@ example : (gatherFams none none [fA, fB, fC]).map (fun f => (f.help, f.ty)) =
 def fB' : Family := { fB with help := strOfString "other" }
 example : (gatherFams none none [fA, fB']).map (·.help) = [strOfString "h"] ∧
     (gatherFams none none [fB', fA]).map (·.help) = [strOfString "other"] := by decide +kernel
+
+/-! ## gather on a registry that is being changed concurrently (tie: area `creg`) -/
+
+/-- every entry of a legal sequential history returned what the specification returns on the registry
+    reached by the entries before it -/
+theorem specRunR_entry {colls : List Coll} {r0 r : Reg} {l : List RM.RLin}
+    (h : C06.specRunR colls r0 l = some r) {i : Nat} {x : RM.RLin} (hx : l[i]? = some x) :
+    ∃ ri, C06.specRunR colls r0 (l.take i) = some ri ∧ (RM.specApply colls ri x.op).2 = x.res := by
+  induction l generalizing r0 i with
+  | nil => simp at hx
+  | cons y rest ih =>
+    simp only [C06.specRunR] at h
+    split at h
+    · next hres =>
+      cases i with
+      | zero =>
+        simp only [List.getElem?_cons_zero, Option.some.injEq] at hx
+        subst hx
+        exact ⟨r0, by simp [C06.specRunR], hres⟩
+      | succ i =>
+        simp only [List.getElem?_cons_succ] at hx
+        obtain ⟨ri, hri, hap⟩ := ih h hx
+        exact ⟨ri, by simp only [List.take_succ_cons, C06.specRunR, hres, if_true, hri], hap⟩
+    · cases h
+
+/-- **concurrent_gather_explained** — `gather()` racing registrations and unregistrations (any number
+    of threads, any interleaving of their lock operations the replay machine accepts): every gather
+    that took effect returned exactly what the SEQUENTIAL `Reg.gather` returns on the registry obtained
+    by executing, one at a time and in commit order, the calls committed before it. All theorems of
+    this file about `Reg.gather` (complete, each sample once, sorted, deterministic) therefore hold
+    for what a concurrent gather returns: no collector let in through interleaved half-registrations
+    can be missing from or doubled in it. -/
+theorem concurrent_gather_explained {colls : List Coll} {prog : List (List String)} {s : RM.St}
+    (h : C06.RReach colls prog s) {i : Nat} {x : RM.RLin} (hx : s.lin[i]? = some x)
+    (hg : x.op = .gather) :
+    ∃ ri, C06.specRunR colls {} (s.lin.take i) = some ri ∧
+      x.res = "+".intercalate (ri.gather.map fun f => RM.hexOf f.name ++ ":" ++ toString f.samples.length) := by
+  obtain ⟨ri, hri, hap⟩ := specRunR_entry (C06.registry_linearizable h).2 hx
+  refine ⟨ri, hri, ?_⟩
+  rw [hg] at hap
+  exact hap.symm
 
 end Prom.C07
